@@ -537,17 +537,21 @@ def case_tightness(prop, seed, cls, Dy, Dx, Da, Dk, eps_list=None, N=1):
                 fails.append(failure(prop, f"{wood}integrate_log_conditional_y:zero-weights:{cls}",
                                      "bound differs from the closed-form E[ln p(y|x)] at zero input weights (homoscedastic limit)",
                                      expected=0.0, got=g0, deviation=g0, params=dict(ref0.params(), eps=0.0, pair=n, **base)))
-            for eps in (1e-1, 1e-2):
-                if (eps, n) not in gaps or (eps / 10, n) not in gaps:
-                    continue
+            # "the gap vanishes quadratically as the weights shrink" is an asymptotic statement: gap(eps)/eps^2 stays bounded.
+            # The decay ratio gap(eps/10) <= gap(eps)/30 is judged on the FINEST pair of scales that was computed; a coarser
+            # pair may fall short of 30 although the gap is O(eps^2), namely when higher-order terms make gap(1e-1) smaller
+            # than its quadratic extrapolation (observed on the unchanged tree: ratios 26 and 88, coefficient gap/eps^2 =
+            # 0.09, 0.36, 0.41).  A gap that decays more slowly than quadratically (ratio ~10 or ~1) fails on every pair.
+            pairs = [eps for eps in (1e-1, 1e-2) if (eps, n) in gaps and (eps / 10, n) in gaps]
+            for eps in pairs:
                 g, qe, ref = gaps[(eps, n)]
                 g10, qe10, _ = gaps[(eps / 10, n)]
                 if g < -(1e-7 + qe) or g10 < -(1e-7 + qe10):
                     fails.append(failure(prop, f"{wood}integrate_log_conditional_y:bound:{cls}", "bound exceeds the true expectation",
                                          expected=0.0, got=[g, g10], deviation=[-g, -g10], params=dict(ref.params(), eps=eps, pair=n, **base)))
-                elif not g10 <= g / 30.0 + 10 * (qe + qe10) + 1e-12:
+                elif eps == pairs[-1] and not g10 <= g / 30.0 + 10 * (qe + qe10) + 1e-12:
                     fails.append(failure(prop, f"{wood}integrate_log_conditional_y:tightness:{cls}",
-                                         "gap to the true value does not decay quadratically: gap(eps/10) > gap(eps)/30",
+                                         "gap to the true value does not decay quadratically: gap(eps/10) > gap(eps)/30 on the finest pair of scales",
                                          expected=g / 30.0, got=g10, deviation=g10 / g if g != 0 else None,
                                          params=dict(ref.params(), eps=eps, pair=n, gaps={f"{k[0]}/{k[1]}": v[0] for k, v in gaps.items()}, **base)))
         m.meta[-1]["gaps"] = {f"{k[0]}/{k[1]}": float(v[0]) for k, v in gaps.items()}
@@ -653,7 +657,7 @@ def c17_trunc_cases(seed, tier):
     # rectified-linear link: the gap closes quadratically with the input weights
     tight = [(1, 1, 1, 1)] + ([] if quick else [(2, 1, 2, 2), (2, 2, 2, 1)])
     for (Dy, Dx, Da, Dk) in tight:
-        out.append(case_tightness("C17", seed, "relu", Dy, Dx, Da, Dk, eps_list=(1e-1, 1e-2) if quick else None))
+        out.append(case_tightness("C17", seed, "relu", Dy, Dx, Da, Dk, eps_list=(1e-2, 1e-3) if quick else None))
     # regular p(y|x), degenerate density of h / of (g, h)
     for cls in TRUNC_LINKS:
         if not quick or cls == "heaviside":       # (quick tier: the rectified-linear class through C16 only)
@@ -698,8 +702,8 @@ def c17_cases(seed, tier):
             out.append(case_tightness("C17", seed, cls, Dy, Dx, Da, Dk))
     out.append(case_tightness("C17", seed, "exp", 1, 1, 2, 1))      # Da > Dy: the shared Woodbury assumption
     # N observations paired with N prior components: each pair on its own (tight at zero weights, quadratic decay)
-    out.append(case_tightness("C17", seed, "exp", 2, 1, 2, 2, eps_list=(1e-1, 1e-2, 0.0), N=3))
-    out.append(case_tightness("C17", seed, "coshm1", 1, 1, 1, 1, eps_list=(1e-1, 1e-2, 0.0), N=2))
+    out.append(case_tightness("C17", seed, "exp", 2, 1, 2, 2, eps_list=(1e-1, 1e-2, 1e-3, 0.0), N=3))
+    out.append(case_tightness("C17", seed, "coshm1", 1, 1, 1, 1, eps_list=(1e-1, 1e-2, 1e-3, 0.0), N=2))
     if not quick:
         out.append(case_tightness("C17", seed, "coshm1", 2, 1, 3, 2))
     out.extend(c17_trunc_cases(seed, tier))      # [hetero-trunc]
